@@ -38,7 +38,7 @@ type Case struct {
 
 var numPaths = []string{"a", "b", "c", "score", "id", "d.a.b", "d.l[0]", "d.l[2].k", "arr[0]", "arr[1]", "arr[4][0]", "arr[4][1]", "m['k2']", "m[\"k2\"]", "d.l[2]['k']"}
 var strPaths = []string{"s", "t", "brand", "d.x", "d.a.s", "d.l[1]", "arr[2]", "arr[3].k", "arr[3]['k']", "m['k']", "m[\"k\"]"}
-var otherPaths = []string{"f", "n", "zz", "w", "d", "d.a", "d.l", "arr", "arr[3]", "arr[4]", "m", "arr[-1]", "arr[-2]", "d.l[-1]", "arr[-1][0]",
+var otherPaths = []string{"f", "n", "zz", "w", "d", "d.a", "d.l", "arr", "arr[3]", "arr[4]", "m", "arr[-1]", "arr[-2]", "d.l[-1]", "arr[-1][0]", "d.l[-1].k",
 	"d.q", "d.a.q.r", "arr[9]", "arr[-9]", "m['nokey']", "a.x", "s[0]", "zz.y", "zz[0]", "n.x", "d.l[5]", "d.x.y", "arr[0][0]"}
 
 var strPool = []string{"x", "y", "hi", "a b", "", "5"}
@@ -62,7 +62,12 @@ func numVal(t *rapid.T, kind string, label string) gen.Val {
 }
 
 func strVal(t *rapid.T, label string) gen.Val {
-	return gen.Str(rapid.SampledFrom(strPool).Draw(t, label))
+	pool := strPool
+	if label == "arr2" && pbt.Open("C05", "negative-index-numeric-string") {
+		// known finding: arr[-1] / arr[-2] turn a numeric-looking string element into a number
+		pool = []string{"x", "y", "hi", "a b", ""}
+	}
+	return gen.Str(rapid.SampledFrom(pool).Draw(t, label))
 }
 
 // hole: 0 value, 1 NULL, 2 missing
@@ -197,6 +202,34 @@ func genRow(t *rapid.T, id int, solid map[string]bool) gen.Row {
 
 // ---- query generator ---------------------------------------------------------------------------
 
+func dottedNeg(p string) bool { return strings.Contains(p, ".") && strings.Contains(p, "[-") }
+
+// negThenIndex: a negative index followed by another index step (arr[-1][0]).
+func negThenIndex(p Path) (prefix Path, ok bool) {
+	for i, s := range p {
+		if s.T == "i" && s.I < 0 && i+1 < len(p) && p[i+1].T == "i" {
+			return p[:i+1], true
+		}
+	}
+	return nil, false
+}
+
+// otherPool: the open findings dotted-negative-index and negative-index-into-string remove
+// d.l[-1], d.l[-1].k and arr[-1][0] from the pool.
+func otherPool() []string {
+	var out []string
+	for _, p := range otherPaths {
+		if dottedNeg(p) && pbt.Open("C05", "dotted-negative-index") {
+			continue
+		}
+		if _, ni := negThenIndex(parsePath(p)); ni && pbt.Open("C05", "negative-index-into-string") {
+			continue
+		}
+		out = append(out, p)
+	}
+	return out
+}
+
 func pick(t *rapid.T, pool []string, label string) string {
 	return rapid.SampledFrom(pool).Draw(t, label)
 }
@@ -266,7 +299,7 @@ func genItems(t *rapid.T, forceID bool) []Item {
 			case 1:
 				it.Path = parsePath(pick(t, strPaths, "p"))
 			default:
-				it.Path = parsePath(pick(t, otherPaths, "p"))
+				it.Path = parsePath(pick(t, otherPool(), "p"))
 			}
 			if star && pbt.Open("C05", "star-with-plain-column") {
 				// known finding: a plain column next to * is not projected; draw an expression instead
@@ -354,6 +387,9 @@ func genLeaf(t *rapid.T) Pred {
 		l.Path = parsePath(pick(t, pool, "wpath"))
 		l.Cmp = pick(t, []string{"==", "="}, "wop")
 		l.Lit = pick(t, strPool, "wslit")
+		if l.Lit == "5" && strings.HasPrefix(l.Path.String(), "arr[2]") && pbt.Open("C05", "negative-index-numeric-string") {
+			l.Lit = "hi" // the barrier row would carry "5" as a list element
+		}
 	} else {
 		pool := []string{"a", "b", "c", "score", "a", "b"}
 		if nested {
@@ -397,7 +433,7 @@ func topOf(p Path) string { return p[0].N }
 
 func genCase(t *rapid.T) Case {
 	var c Case
-	if rapid.IntRange(0, 49).Draw(t, "load") == 0 {
+	if rapid.IntRange(0, 59).Draw(t, "load") == 41 { // rapid favours the ends of a range: take an inner value
 		c.Load = rapid.IntRange(1500, 2500).Draw(t, "loadn")
 		c.Throttle = rapid.Bool().Draw(t, "throttle")
 	}
@@ -974,6 +1010,9 @@ func features(c Case) []string {
 			hasStar = true
 		case "col":
 			hasCol = true
+			if dottedNeg(it.Path.String()) {
+				f = append(f, "dotted-negative-index")
+			}
 		case "num":
 			if !strings.HasPrefix(it.Lit, "-") {
 				f = append(f, "bare-number-literal")
@@ -991,6 +1030,30 @@ func features(c Case) []string {
 	}
 	if hasStar && hasCol {
 		f = append(f, "star-with-plain-column")
+	}
+	for _, it := range c.Items {
+		if it.Kind != "col" || !strings.Contains(it.Path.String(), "[-") {
+			continue
+		}
+		rows := c.Rows
+		if bar := barrierRow(c); bar != nil {
+			rows = append(append([]gen.Row{}, rows...), bar)
+		}
+		if pre, ni := negThenIndex(it.Path); ni {
+			for _, r := range rows {
+				if v, ok := resolve(r, pre); ok && v.K == "str" {
+					f = append(f, "negative-index-into-string")
+					break
+				}
+			}
+		}
+		for _, r := range rows {
+			if v, ok := resolve(r, it.Path); ok && v.K == "str" {
+				if _, err := strconv.ParseFloat(strings.TrimSpace(v.S), 64); err == nil {
+					f = append(f, "negative-index-numeric-string")
+				}
+			}
+		}
 	}
 	if c.Where != nil && c.Where.hasOr() {
 		rows := c.Rows
